@@ -530,6 +530,7 @@ class Terms:
         preds = self.b.preds()
         seen = set()
         dq = deque()
+        self._entry_reached = bb == 0
         for p in preds[bb]:
             if (p, bb) not in self.removed and p in self.reach:
                 dq.append(p)
@@ -546,6 +547,10 @@ class Terms:
                     seen_defs.add(k)
                     out.append(d)
                 continue
+            if x == 0:
+                # a path from the function entry without any definition: for a parameter the
+                # value it had on entry is one of the reaching values
+                self._entry_reached = True
             if x == bb:
                 # loop back to the use block: defs after idx in this block reach around
                 later = [d for d in by_block.get(bb, []) if d[1] >= idx]
@@ -713,12 +718,16 @@ class Terms:
                 base = self.params[l] if self.params and l in self.params else ("param", l, b.local_name(l) or "", b.local_ty(l))
                 return self._apply_proj(base, proj)
         ds = self.reaching(l, proj, bb, idx)
+        entry = getattr(self, "_entry_reached", False)
         if not ds:
             if 1 <= l <= b.nargs:
                 base = self.params[l] if self.params and l in self.params else ("param", l, b.local_name(l) or "", b.local_ty(l))
                 return self._apply_proj(base, proj)
             return ("undef", pl["s"])
         ts = []
+        if entry and 1 <= l <= b.nargs and b.kind not in ("promoted", "const"):
+            base = self.params[l] if self.params and l in self.params else ("param", l, b.local_name(l) or "", b.local_ty(l))
+            ts.append(self._apply_proj(base, proj))
         for d in ds:
             ts.append(self._from_def(d, l, proj))
         return self._phi(ts)
